@@ -9,14 +9,15 @@ from . import q
 STREAM = "litex/soc/interconnect/stream.py"
 PACKET = "litex/soc/interconnect/packet.py"
 
-_fx_cache = {}
+_fx_cache = {}      # kept for compatibility (self-test clears it); the real cache lives on the Ctx
 
 
 def fx_of(ctx, rel, cls=None, func=None, **kw):
-    key = (id(ctx), rel, cls, func)
-    if key not in _fx_cache:
-        _fx_cache[key] = FX(ctx, rel, cls=cls, func=func, **kw)
-    return _fx_cache[key]
+    cache = ctx.__dict__.setdefault("_fx", {})
+    key = (rel, cls, func)
+    if key not in cache:
+        cache[key] = FX(ctx, rel, cls=cls, func=func, **kw)
+    return cache[key]
 
 
 def under(t, base):
